@@ -32,6 +32,9 @@ type c09ReloginCase struct {
 	// password the application changes in between (a retry after "password
 	// expired", a pooled configuration)
 	SameConfig bool `json:"same_config_object,omitempty"`
+	// SecondKeyBits: the second negotiation announces another server key
+	// (of this size) than the first one
+	SecondKeyBits int `json:"second_login_key_bits,omitempty"`
 }
 
 func c09Relogin(c *Ctx, cs c09ReloginCase) {
@@ -41,6 +44,10 @@ func c09Relogin(c *Ctx, cs c09ReloginCase) {
 		r.Violate(sig, fmt.Sprintf("two logins on one connection, %d remote servers in an application-owned list with %d spare capacity: %s", cs.Remotes, cs.SpareCap, detail), cs)
 	}
 	key := lpGetKey(cs.KeyBits)
+	keys := []*lpKey{key, key}
+	if cs.SecondKeyBits != 0 {
+		keys[1] = lpGetKey(cs.SecondKeyBits)
+	}
 	rnd := rt.NewRand(c.Seed, fmt.Sprintf("c09/relogin/%d", cs.Idx))
 	nonces := [][]byte{rnd.Bytes(16), rnd.Bytes(16)}
 	pws := []string{"first-Acc0unt-pw", "second-Acc0unt-pw"}
@@ -59,12 +66,12 @@ func c09Relogin(c *Ctx, cs c09ReloginCase) {
 	}
 	defer k.teardown()
 	types := []int{srv.TInt4, srv.TLongBinary, srv.TLongBinary}
-	negotiate := func(n []byte) []lpItem {
-		return []lpItem{lpLoginAck(srv.LogNegotiate), lpMsg(1, lpMsgEncrypt4), lpParamFmt(types...), lpParams(types, 1, "valid", key.pem, n), lpDone(0)}
+	negotiate := func(i int) []lpItem {
+		return []lpItem{lpLoginAck(srv.LogNegotiate), lpMsg(1, lpMsgEncrypt4), lpParamFmt(types...), lpParams(types, 1, "valid", keys[i].pem, nonces[i]), lpDone(0)}
 	}
 	replies := [][]lpItem{
-		negotiate(nonces[0]), {lpLoginAck(srv.LogFail), lpDone(0)}, // login 1: refused
-		negotiate(nonces[1]), {lpLoginAck(srv.LogSucceed), lpCaps("ok"), lpDone(0)}, // login 2: accepted
+		negotiate(0), {lpLoginAck(srv.LogFail), lpDone(0)}, // login 1: refused
+		negotiate(1), {lpLoginAck(srv.LogSucceed), lpCaps("ok"), lpDone(0)}, // login 2: accepted
 	}
 	var mu sync.Mutex
 	var cur []byte
@@ -145,7 +152,7 @@ func c09Relogin(c *Ctx, cs c09ReloginCase) {
 		for j := 0; j < cs.Remotes; j++ {
 			secrets = append(secrets, []byte(fmt.Sprintf("rem0te-pw-%d", j)))
 		}
-		sk, _, ok := c09Phase2(r, func(sig, d string) { fail(sig, fmt.Sprintf("login %d: %s", i+1, d)) }, key, nonces[i], []byte(pws[i]), names, secrets, msgs[2*i+1])
+		sk, _, ok := c09Phase2(r, func(sig, d string) { fail(sig, fmt.Sprintf("login %d: %s", i+1, d)) }, keys[i], nonces[i], []byte(pws[i]), names, secrets, msgs[2*i+1])
 		if !ok {
 			return
 		}
@@ -162,7 +169,10 @@ func c09Relogin(c *Ctx, cs c09ReloginCase) {
 		return
 	}
 	r.Count("relogin_cases", 1)
-	r.Distinct(fmt.Sprintf("relogin|%d|%d|%d", cs.Remotes, cs.SpareCap, cs.KeyBits))
+	r.Distinct(fmt.Sprintf("relogin|%d|%d|%d|%d", cs.Remotes, cs.SpareCap, cs.KeyBits, cs.SecondKeyBits))
+	if cs.SecondKeyBits != 0 {
+		r.Count("relogin_cases_with_another_server_key", 1)
+	}
 }
 
 func runC09Relogin(c *Ctx) {
@@ -178,7 +188,15 @@ func runC09Relogin(c *Ctx) {
 		cases = append(cases, c09ReloginCase{Leg: "relogin", Remotes: rem, SpareCap: 1, KeyBits: 2048, Idx: idx, SameConfig: true})
 		idx++
 	}
+	// the server announces another key in the second negotiation
+	for _, rem := range []int{0, 2} {
+		cases = append(cases, c09ReloginCase{Leg: "relogin", Remotes: rem, SpareCap: 0, KeyBits: 2048, SecondKeyBits: 1024, Idx: idx})
+		idx++
+		cases = append(cases, c09ReloginCase{Leg: "relogin", Remotes: rem, SpareCap: 1, KeyBits: 1024, SecondKeyBits: 2048, Idx: idx, SameConfig: true})
+		idx++
+	}
 	lpGetKey(2048)
+	lpGetKey(1024)
 	c.R.Sample("relogin", cases[4])
 	c.parallel(len(cases), func(i int) { c09Relogin(c, cases[i]) })
 }
